@@ -686,7 +686,8 @@ func init() {
 			sc.Cfg.Dir = scratchDir()
 			x := sched.NewExec(sc, nil)
 			x.NoDigest = true
-			compare := func(step int) {
+			var compare func(step int)
+			compare = func(step int) {
 				n0 := x.C.Nodes[0]
 				bs, ok := n0.Store.(*hg.BadgerStore)
 				if !ok || n0.Down {
@@ -718,6 +719,34 @@ func init() {
 						if string(a) != string(b) {
 							viol("live:database-copy-stale", fmt.Sprintf("%s step %d: the database copy of event %s (participant %d index %d) is not the persisted form of the event the node holds: %s", it.Source, step, hx[:10], id, i, firstDiff(string(a), string(b))), map[string]interface{}{"source": it.Source, "step": step})
 						}
+					}
+				}
+			}
+			// blocks are updated in place as well (state hash and receipts after the application's answer, signatures as
+			// they are gossiped): the database copy of every block must be the block the node holds and reports
+			cmpEvents := compare
+			compare = func(step int) {
+				cmpEvents(step)
+				n0 := x.C.Nodes[0]
+				bs, ok := n0.Store.(*hg.BadgerStore)
+				if !ok || n0.Down {
+					return
+				}
+				for i := 0; i <= bs.LastBlockIndex(); i++ {
+					cb, err := bs.VInmem().GetBlock(i)
+					if err != nil {
+						continue // evicted, or below a fast-sync anchor
+					}
+					db, err := bs.VDbGetBlock(i)
+					res.Reads++
+					if err != nil {
+						viol("live:block-not-in-database", fmt.Sprintf("%s step %d: block %d is in the node's cache but not in its database: %v", it.Source, step, i, err), map[string]interface{}{"source": it.Source, "step": step})
+						continue
+					}
+					a, _ := json.Marshal(cb)
+					b, _ := json.Marshal(db)
+					if string(a) != string(b) {
+						viol("live:database-block-stale", fmt.Sprintf("%s step %d: the database copy of block %d is not the block the node holds: %s", it.Source, step, i, firstDiff(string(a), string(b))), map[string]interface{}{"source": it.Source, "step": step})
 					}
 				}
 			}
